@@ -222,9 +222,22 @@ func propFlavors(prop string) []string {
 	return []string{"plain", "cover"}
 }
 
-func scaleEnv() float64 {
+// thoroughScale multiplies the thorough tier's per-shard case counts (which are
+// already 10x quick) so that every thorough run explores for roughly 8-15
+// minutes on 16 cores; VERIF_SCALE overrides it.
+var thoroughScale = map[string]float64{
+	"C01": 3, "C02": 3, "C03": 2, "C04": 6, "C05": 3, "C06": 3, "C07": 20, "C08": 3, "C09": 5, "C10": 5,
+	"C11": 5, "C12": 5, "C13": 8, "C14": 12, "C15": 20, "C16": 5, "C17": 4, "C18": 10, "C19": 10, "C20": 1,
+}
+
+func scaleEnv(prop, tier string) float64 {
 	if s := os.Getenv("VERIF_SCALE"); s != "" {
 		if f, err := strconv.ParseFloat(s, 64); err == nil && f > 0 {
+			return f
+		}
+	}
+	if tier == "thorough" {
+		if f, ok := thoroughScale[prop]; ok {
 			return f
 		}
 	}
@@ -269,12 +282,12 @@ func doCheck(prop, tier string) int {
 			fmt.Printf("BUILD-FAILED property=%s flavour=%s\n%s\n", prop, fn, out)
 			return 2
 		}
-		var extra []string
+		extra := []string{fmt.Sprintf("VERIF_SCALE=%g", scaleEnv(prop, tier))}
 		if fl.Cover {
 			// The coverage-instrumented build shares counters between all worker
 			// goroutines (heavy cache-line contention), so reach is measured on a
 			// 1/10 prefix of the same case streams; verdicts of that run count too.
-			extra = append(extra, fmt.Sprintf("VERIF_SCALE=%g", scaleEnv()*0.1))
+			extra = []string{fmt.Sprintf("VERIF_SCALE=%g", scaleEnv(prop, tier)*0.1)}
 		}
 		oc := runChild(binPath, fl, prop, tier, seed, extra, limitFor(tier))
 		os.Remove(binPath)
